@@ -68,6 +68,10 @@ pub fn build_tree(tree: &Tree, clauses: &[ClauseSpec], next: &mut usize) -> DynC
 pub struct TreeCase {
     pub scn: Scenario,
     pub tree: Tree,
+    /// the mock is constructed by a destructor that runs while the thread unwinds from a (caught) user panic, e.g.
+    /// a fixture's cleanup: an inconsistent setup must be rejected there as well
+    #[serde(default)]
+    pub construct_while_unwinding: bool,
 }
 
 /// Distinct ordered leaves: leaf i is `next_call` of method (i % 3) accepting only arg (i % 8),
@@ -137,7 +141,16 @@ pub fn run_real_tree(case: &TreeCase) -> RealRun {
     let mut next = 0;
     let dc = build_tree(&case.tree, &scn.clauses, &mut next);
     let partial = scn.partial;
-    let original = match catch(move || if partial { Unimock::new_partial(dc) } else { Unimock::new(dc) }) {
+    let construct = move || catch(move || if partial { Unimock::new_partial(dc) } else { Unimock::new(dc) });
+    let constructed = if case.construct_while_unwinding {
+        match crate::exec::while_unwinding(construct) {
+            Ok(r) => r,
+            Err(harness) => Err(harness),
+        }
+    } else {
+        construct()
+    };
+    let original = match constructed {
         Ok(u) => u,
         Err(msg) => return RealRun { construct_error: Some(msg), calls: vec![], clone_drop_panics: vec![], verify: None },
     };
@@ -163,7 +176,8 @@ pub fn check(case: &TreeCase) -> Result<CaseInfo, String> {
     })?;
     let mut info = CaseInfo::new(case.tree.max_arity() >= 6 || case.tree.depth() >= 2)
         .class_if(case.tree.max_arity() >= 12, "arity>=12")
-        .class_if(case.tree.depth() >= 3, "depth>=3");
+        .class_if(case.tree.depth() >= 3, "depth>=3")
+        .class_if(case.construct_while_unwinding, "constructed-by-a-destructor-during-unwinding");
     match (r, model_err) {
         (None, Some(err)) => {
             // inconsistent setup: construction must have panicked (compare_run checked that);
@@ -248,7 +262,7 @@ fn order_case() -> impl Strategy<Value = TreeCase> {
             // a transposed call only makes sense in the purely ordered walk
             let unordered = if swap.is_some() { 0 } else { unordered };
             let swap = swap.map(|k| k % n.max(1));
-            tree_strategy(n).prop_map(move |tree| TreeCase { scn: ordered_leaves_mixed(n, swap, partial, zeros, unordered), tree })
+            (tree_strategy(n), proptest::bool::weighted(0.25)).prop_map(move |(tree, construct_while_unwinding)| TreeCase { scn: ordered_leaves_mixed(n, swap, partial, zeros, unordered), tree, construct_while_unwinding })
         })
 }
 
@@ -297,7 +311,7 @@ fn offender_case() -> impl Strategy<Value = TreeCase> {
         };
         scn.clauses.insert(at, offender);
         let n = scn.clauses.len();
-        tree_strategy(n).prop_map(move |tree| TreeCase { scn: scn.clone(), tree })
+        (tree_strategy(n), proptest::bool::weighted(0.4)).prop_map(move |(tree, construct_while_unwinding)| TreeCase { scn: scn.clone(), tree, construct_while_unwinding })
     })
 }
 
@@ -305,28 +319,29 @@ fn offender_case() -> impl Strategy<Value = TreeCase> {
 pub fn arity_sweep() -> Vec<TreeCase> {
     let mut v = vec![];
     for partial in [false, true] {
-        v.push(TreeCase { scn: ordered_leaves(0, None, partial), tree: Tree::Node(vec![]) });
+        v.push(TreeCase { scn: ordered_leaves(0, None, partial), tree: Tree::Node(vec![]), construct_while_unwinding: false });
         for arity in 2..=16usize {
-            v.push(TreeCase { scn: ordered_leaves(arity, None, partial), tree: Tree::Node(vec![Tree::Leaf; arity]) });
+            v.push(TreeCase { scn: ordered_leaves(arity, None, partial), tree: Tree::Node(vec![Tree::Leaf; arity]), construct_while_unwinding: false });
             // every adjacent transposition of the call order must be refused
             for k in 0..arity - 1 {
-                v.push(TreeCase { scn: ordered_leaves(arity, Some(k), partial), tree: Tree::Node(vec![Tree::Leaf; arity]) });
+                v.push(TreeCase { scn: ordered_leaves(arity, Some(k), partial), tree: Tree::Node(vec![Tree::Leaf; arity]), construct_while_unwinding: false });
             }
             // a zero-count leaf at every position (it reserves nothing; its neighbours keep their order)
             for z in 0..arity {
-                v.push(TreeCase { scn: ordered_leaves_with_zeros(arity, None, partial, 1 << z), tree: Tree::Node(vec![Tree::Leaf; arity]) });
+                v.push(TreeCase { scn: ordered_leaves_with_zeros(arity, None, partial, 1 << z), tree: Tree::Node(vec![Tree::Leaf; arity]), construct_while_unwinding: false });
             }
             // nested: (leaf, (arity leaves), leaf)
             v.push(TreeCase {
                 scn: ordered_leaves(arity + 2, None, partial),
                 tree: Tree::Node(vec![Tree::Leaf, Tree::Node(vec![Tree::Leaf; arity]), Tree::Leaf]),
+                construct_while_unwinding: arity % 2 == 1,
             });
         }
     }
     v
 }
 
-pub const RULE: &str = "arity-sweep = every tuple arity 0, 2..16 as a flat tuple of distinct ordered leaf clauses (accepted only in declaration order) with the in-order history, every adjacent transposition of it, one n_times(0) leaf at every position, and the same tuple nested between two further leaves, strict and partial: enumerated exhaustively. trees = random tuple trees (arity 0, 2..16, depth <= 4, up to 40 leaves) over the same leaves, with and without a transposed call, with and without n_times(0) leaves, with and without unordered exact-count clauses of another method between the ordered leaves. offenders = generated consistent setups (C01-C04 style) with one offending clause (the opposite mode for an already mentioned method, or an empty stub) injected at a generated position of a random tree. compile-fail = builder chains about ordering/exactness that must not type-check (program-generation engine). Non-trivial = arity >= 6 or depth >= 2, or an offending clause; distinct = distinct case";
+pub const RULE: &str = "arity-sweep = every tuple arity 0, 2..16 as a flat tuple of distinct ordered leaf clauses (accepted only in declaration order) with the in-order history, every adjacent transposition of it, one n_times(0) leaf at every position, and the same tuple nested between two further leaves, strict and partial: enumerated exhaustively. trees = random tuple trees (arity 0, 2..16, depth <= 4, up to 40 leaves) over the same leaves, with and without a transposed call, with and without n_times(0) leaves, with and without unordered exact-count clauses of another method between the ordered leaves. offenders = generated consistent setups (C01-C04 style) with one offending clause (the opposite mode for an already mentioned method, or an empty stub) injected at a generated position of a random tree; a share of all mocks is constructed by a destructor that runs during the unwinding of a caught user panic. compile-fail = builder chains about ordering/exactness that must not type-check (program-generation engine). Non-trivial = arity >= 6 or depth >= 2, or an offending clause; distinct = distinct case";
 
 pub fn run(ctx: &Ctx) -> Verdict {
     let mut v = Verdict::new("exploration", RULE);
